@@ -38,7 +38,7 @@ func main() {
 		sc := gen(i)
 		rig, err := proc.New(proc.Options{Key: vlib.Key(proc.NodeKey), DB: store})
 		if err != nil {
-			r.Inconclusive("rig: " + err.Error())
+			r.InconclusiveCase("rig: " + err.Error())
 			break
 		}
 		md := proc.NewModel()
@@ -83,7 +83,7 @@ func main() {
 		sc := gen(nDirect + i)
 		rig, err := proc.New(proc.Options{Key: vlib.Key(proc.NodeKey), DB: store, Run: true})
 		if err != nil {
-			r.Inconclusive("rig: " + err.Error())
+			r.InconclusiveCase("rig: " + err.Error())
 			break
 		}
 		md := proc.NewModel()
@@ -106,7 +106,7 @@ func main() {
 		default:
 		}
 		if err != nil {
-			r.Inconclusive("run mode: " + err.Error())
+			r.InconclusiveCase("run mode: " + err.Error())
 		}
 		rig.Close()
 		r.Count("scenarios", 1)
